@@ -319,10 +319,383 @@ fn c17(cli: &Cli) {
     rep.finish();
 }
 
+// ------------------------------------------------------------------------------------------
+// C16: cluster isolation, on full agents over loopback QUIC
+// ------------------------------------------------------------------------------------------
+
+use klukai_types::actor::{Actor, ActorId, ClusterId};
+use klukai_types::broadcast::{BiPayload, BiPayloadV1, BroadcastV1, ChangeV1, UniPayload, UniPayloadV1};
+use klukai_types::sync::{SyncMessage, SyncMessageV1, SyncRejectionV1, SyncTraceContextV1};
+use speedy::Writable;
+
+fn frame(payload: &[u8]) -> Vec<u8> {
+    let mut v = (payload.len() as u32).to_be_bytes().to_vec();
+    v.extend_from_slice(payload);
+    v
+}
+
+/// declared: None = frame without the trailing cluster id (defaults to 0 at the receiver)
+fn uni_frame(change: &ChangeV1, declared: Option<u16>) -> Vec<u8> {
+    let p = UniPayload::V1 { data: UniPayloadV1::Broadcast(BroadcastV1::Change(change.clone())), cluster_id: ClusterId(declared.unwrap_or(0)) };
+    let bytes = p.write_to_vec().unwrap();
+    match declared {
+        Some(_) => frame(&bytes),
+        None => frame(&bytes[..bytes.len() - 2]),
+    }
+}
+
+fn versions_of(idx: usize, n: u64, base: i64) -> Vec<ChangeV1> {
+    let tpl = Template::build(idx, SCHEMA);
+    let s = Scratch::new("c16w");
+    let p = tpl.instantiate(&s.path().join("w"));
+    let mut w = RtNode::open(&p, NodeOpts::default());
+    let mut out = vec![];
+    for i in 1..=n {
+        let id = base + i as i64;
+        let (st, _b, bc) = w.run(async |nd| nd.write(vec![Statement::Simple(format!("INSERT INTO t (id,a,b) VALUES ({id},'v','w')"))], None).await);
+        assert_eq!(st, 200);
+        out.push(bc[0].clone());
+    }
+    out
+}
+
+struct Full {
+    agent: klukai_types::agent::Agent,
+    bookie: klukai_types::agent::Bookie,
+    transport: klukai_agent::transport::Transport,
+    _tx: tokio::sync::mpsc::Sender<()>,
+}
+
+async fn start_full(tpl: &Template, dir: &std::path::Path, cluster: u16) -> Full {
+    let db = tpl.instantiate(dir);
+    {
+        let c = rusqlite::Connection::open(&db).unwrap();
+        c.execute("INSERT OR REPLACE INTO __corro_state (key, value) VALUES ('cluster_id', ?)", [cluster]).unwrap();
+    }
+    let conf = klukai_types::config::Config::builder()
+        .db_path(db.display().to_string())
+        .gossip_addr("127.0.0.1:0".parse().unwrap())
+        .api_addr("127.0.0.1:0".parse().unwrap())
+        .admin_path(dir.join("admin.sock").display().to_string())
+        .build()
+        .unwrap();
+    let (tripwire, worker, tx) = klukai_types::tripwire::Tripwire::new_simple();
+    tokio::spawn(worker);
+    let (agent, bookie, transport, _handles) = klukai_agent::agent::start_with_config(conf, tripwire).await.expect("start agent");
+    assert_eq!(agent.cluster_id(), ClusterId(cluster), "cluster id read from __corro_state");
+    Full { agent, bookie, transport, _tx: tx }
+}
+
+async fn held(f: &Full, c: &ChangeV1) -> bool {
+    let booked = f.bookie.read::<&str, _>("verif", None).await.get(&c.actor_id).cloned();
+    match booked {
+        Some(b) => b.read::<&str, _>("verif", None).await.contains_all(c.versions(), c.seqs()),
+        None => false,
+    }
+}
+
+async fn wait_held(f: &Full, c: &ChangeV1, max: Duration) -> bool {
+    let start = Instant::now();
+    while start.elapsed() < max {
+        if held(f, c).await {
+            return true;
+        }
+        tokio::time::sleep(Duration::from_millis(5)).await;
+    }
+    false
+}
+
+async fn new_transport() -> klukai_agent::transport::Transport {
+    let conf = klukai_types::config::Config::builder()
+        .db_path("/dev/shm/vh-unused.db".to_string())
+        .gossip_addr("127.0.0.1:0".parse().unwrap())
+        .api_addr("127.0.0.1:0".parse().unwrap())
+        .build()
+        .unwrap();
+    let (rtt_tx, _rtt_rx) = tokio::sync::mpsc::channel(128);
+    // keep the receiver alive for the lifetime of the process
+    std::mem::forget(_rtt_rx);
+    klukai_agent::transport::Transport::new(&conf.gossip, rtt_tx).await.unwrap()
+}
+
+/// first sync message the server sends for a SyncStart declaring `declared`, and whether
+/// anything follows it
+async fn sync_probe(t: &klukai_agent::transport::Transport, addr: std::net::SocketAddr, declared: u16) -> Result<(String, usize), String> {
+    use tokio_util::codec::{FramedRead, LengthDelimitedCodec};
+    let (mut tx, rx) = t.open_bi(addr).await.map_err(|e| e.to_string())?;
+    let mut read = FramedRead::new(rx, LengthDelimitedCodec::builder().max_frame_length(100 * 1024 * 1024).new_codec());
+    let start = BiPayload::V1 { data: BiPayloadV1::SyncStart { actor_id: ActorId::from_bytes([0x77; 16]), trace_ctx: SyncTraceContextV1::default() }, cluster_id: ClusterId(declared) };
+    let clock = SyncMessage::V1(SyncMessageV1::Clock(klukai_types::broadcast::Timestamp::from(uhlc::HLC::default().new_timestamp())));
+    let mut bytes = frame(&start.write_to_vec().unwrap());
+    bytes.extend(frame(&clock.write_to_vec().unwrap()));
+    tx.write_chunk(bytes.into()).await.map_err(|e| e.to_string())?;
+    let first = match tokio::time::timeout(Duration::from_secs(5), klukai_agent::api::peer::read_sync_msg(&mut read)).await {
+        Ok(Ok(Some(SyncMessage::V1(m)))) => match m {
+            SyncMessageV1::Rejection(SyncRejectionV1::DifferentCluster) => "rejection:different-cluster".to_string(),
+            SyncMessageV1::Rejection(r) => format!("rejection:{r:?}"),
+            SyncMessageV1::State(_) => "state".to_string(),
+            SyncMessageV1::Changeset(_) => "changeset".to_string(),
+            SyncMessageV1::Clock(_) => "clock".to_string(),
+            SyncMessageV1::Request(_) => "request".to_string(),
+        },
+        Ok(Ok(None)) => "closed".to_string(),
+        Ok(Err(e)) => format!("error:{e}"),
+        Err(_) => "timeout".to_string(),
+    };
+    // anything after it?
+    let _ = tx.finish();
+    let mut more = 0;
+    if first.starts_with("rejection") {
+        loop {
+            match tokio::time::timeout(Duration::from_millis(400), klukai_agent::api::peer::read_sync_msg(&mut read)).await {
+                Ok(Ok(Some(_))) => more += 1,
+                _ => break,
+            }
+        }
+    }
+    Ok((first, more))
+}
+
+fn c16(cli: &Cli) {
+    let rep = Report::new("C16", cli.tier, cli.seed);
+    sweep_stale_scratch();
+    let tpl = Template::build(3, SCHEMA);
+    let foreign = versions_of(0, 60, 1000);
+    let native = versions_of(1, 60, 2000);
+    let rt = tokio::runtime::Builder::new_multi_thread().worker_threads(6).enable_all().build().unwrap();
+    let scratch = Scratch::new("c16");
+    let tier = cli.tier;
+    let (evals, nontrivial) = rt.block_on(async {
+        let mut evals = 0u64;
+        let mut nontrivial = 0u64;
+        let mut fi = 0usize; // next unused foreign version
+        let mut ni = 0usize;
+        // ---------------- broadcast path: receiver id x declared id x frame order
+        for c_r in [0u16, 1, 2] {
+            let r = start_full(&tpl, &scratch.path().join(format!("r{c_r}")), c_r).await;
+            let addr = r.agent.gossip_addr();
+            let t = new_transport().await;
+            for declared in [None, Some(0u16), Some(1), Some(2)] {
+                for foreign_first in [true, false] {
+                    let f = &foreign[fi];
+                    let n = &native[ni];
+                    fi += 1;
+                    ni += 1;
+                    let ff = uni_frame(f, declared);
+                    let nf = uni_frame(n, Some(c_r));
+                    let mut stream = vec![];
+                    if foreign_first {
+                        stream.extend(ff);
+                        stream.extend(nf);
+                    } else {
+                        stream.extend(nf);
+                        stream.extend(ff);
+                    }
+                    t.send_uni(addr, stream.into()).await.expect("send uni");
+                    evals += 1;
+                    let case = json!({"path": "broadcast", "receiver_cluster": c_r, "declared": declared, "foreign_frame_first": foreign_first});
+                    if !wait_held(&r, n, Duration::from_secs(8)).await {
+                        rep.violation("C16:native-frame-in-the-same-stream-not-processed", json!({"case": case}));
+                        continue;
+                    }
+                    // the handler forwards a stream's frames together; give the pipeline a moment
+                    tokio::time::sleep(Duration::from_millis(60)).await;
+                    let effective = declared.unwrap_or(0);
+                    let got = held(&r, f).await;
+                    if effective != c_r {
+                        nontrivial += 1;
+                        if got {
+                            rep.violation("C16:change-from-another-cluster-applied:broadcast", json!({"case": case}));
+                        }
+                    } else if !wait_held(&r, f, Duration::from_secs(5)).await {
+                        rep.violation("C16:same-cluster-change-not-applied", json!({"case": case}));
+                    }
+                    rep.outcome(digest(&(c_r, declared, got)));
+                }
+                // ---- sync served
+                for declared_sync in [0u16, 1, 2] {
+                    evals += 1;
+                    match sync_probe(&t, addr, declared_sync).await {
+                        Err(e) => rep.violation("C16:sync-probe-failed", json!({"err": e})),
+                        Ok((first, more)) => {
+                            let case = json!({"path": "sync-served", "receiver_cluster": c_r, "declared": declared_sync, "first_message": first, "messages_after": more});
+                            if declared_sync != c_r {
+                                nontrivial += 1;
+                                if first != "rejection:different-cluster" {
+                                    rep.violation("C16:sync-from-another-cluster-not-rejected", json!({"case": case}));
+                                }
+                                if more > 0 {
+                                    rep.violation("C16:data-follows-the-cluster-rejection", json!({"case": case}));
+                                }
+                            } else if first != "state" {
+                                rep.violation("C16:same-cluster-sync-not-served", json!({"case": case}));
+                            }
+                            rep.outcome(digest(&(c_r, declared_sync, first)));
+                        }
+                    }
+                    if declared.is_some() {
+                        break; // the sync grid does not depend on `declared`; run it fully once per receiver
+                    }
+                }
+            }
+            if c_r == 1 {
+                // ---------------- run-time switch of the cluster id (what `cluster set-id` does)
+                let f_old = &foreign[fi];
+                let f_new = &foreign[fi + 1];
+                let n_new = &native[ni];
+                fi += 2;
+                ni += 1;
+                r.agent.set_cluster_id(ClusterId(2));
+                // connection `t` was accepted while the node was in cluster 1
+                t.send_uni(addr, uni_frame(f_old, Some(1)).into()).await.expect("send uni");
+                evals += 1;
+                nontrivial += 1;
+                tokio::time::sleep(Duration::from_millis(700)).await;
+                if held(&r, f_old).await {
+                    rep.violation(
+                        "C16:change-from-previous-cluster-applied-on-connection-opened-before-set-id",
+                        json!({"case": {"path": "broadcast", "receiver_cluster_before": 1, "receiver_cluster_now": 2, "declared": 1, "connection": "opened before the switch"}}),
+                    );
+                }
+                let t2 = new_transport().await;
+                let mut stream = uni_frame(f_new, Some(1));
+                stream.extend(uni_frame(n_new, Some(2)));
+                t2.send_uni(addr, stream.into()).await.expect("send uni");
+                evals += 1;
+                nontrivial += 1;
+                if !wait_held(&r, n_new, Duration::from_secs(8)).await {
+                    rep.violation("C16:native-frame-not-processed-after-set-id", json!({}));
+                }
+                tokio::time::sleep(Duration::from_millis(60)).await;
+                if held(&r, f_new).await {
+                    rep.violation("C16:change-from-another-cluster-applied:broadcast-after-set-id", json!({"connection": "opened after the switch"}));
+                }
+                for declared_sync in [1u16, 2] {
+                    evals += 1;
+                    if let Ok((first, more)) = sync_probe(&t2, addr, declared_sync).await {
+                        if declared_sync != 2 && (first != "rejection:different-cluster" || more > 0) {
+                            rep.violation("C16:sync-from-previous-cluster-not-rejected-after-set-id", json!({"first": first, "more": more}));
+                        }
+                        if declared_sync == 2 && first != "state" {
+                            rep.violation("C16:same-cluster-sync-not-served-after-set-id", json!({"first": first}));
+                        }
+                    }
+                }
+            }
+        }
+        // ---------------- who the node contacts: membership tables mixing clusters
+        let r = start_full(&tpl, &scratch.path().join("rm"), 1).await;
+        let mut listeners = vec![];
+        let counters: Vec<std::sync::Arc<std::sync::atomic::AtomicU64>> = (0..3).map(|_| std::sync::Arc::new(std::sync::atomic::AtomicU64::new(0))).collect();
+        for i in 0..3 {
+            let conf = klukai_types::config::Config::builder()
+                .db_path("/dev/shm/vh-unused.db".to_string())
+                .gossip_addr("127.0.0.1:0".parse().unwrap())
+                .api_addr("127.0.0.1:0".parse().unwrap())
+                .build()
+                .unwrap();
+            let ep = klukai_agent::api::peer::gossip_server_endpoint(&conf.gossip).await.unwrap();
+            let addr = ep.local_addr().unwrap();
+            let ctr = counters[i].clone();
+            tokio::spawn(async move {
+                while let Some(connecting) = ep.accept().await {
+                    let ctr = ctr.clone();
+                    tokio::spawn(async move {
+                        if let Ok(conn) = connecting.await {
+                            ctr.fetch_add(1, std::sync::atomic::Ordering::SeqCst);
+                            loop {
+                                tokio::select! {
+                                    u = conn.accept_uni() => { if u.is_err() { break; } ctr.fetch_add(1, std::sync::atomic::Ordering::SeqCst); }
+                                    b = conn.accept_bi() => { if b.is_err() { break; } ctr.fetch_add(1, std::sync::atomic::Ordering::SeqCst); }
+                                    d = conn.read_datagram() => { if d.is_err() { break; } ctr.fetch_add(1, std::sync::atomic::Ordering::SeqCst); }
+                                }
+                            }
+                        }
+                    });
+                }
+            });
+            listeners.push(addr);
+        }
+        let assignments: Vec<[bool; 3]> = (0..8u8).map(|m| [m & 1 != 0, m & 2 != 0, m & 4 != 0]).collect();
+        let assignments: Vec<[bool; 3]> = if tier == Tier::Quick { assignments.into_iter().filter(|a| [[true, false, true], [false, true, false], [false, false, false], [true, true, false]].contains(a)).collect() } else { assignments };
+        let mut wid = 5000;
+        for (ai, own) in assignments.iter().enumerate() {
+            {
+                let mut m = r.agent.members().write();
+                m.states.clear();
+                m.by_addr.clear();
+                m.rtts.clear();
+                for i in 0..3 {
+                    let actor = Actor::new(
+                        ActorId::from_bytes([0x30 + i as u8 + (ai as u8) * 4; 16]),
+                        listeners[i],
+                        klukai_types::broadcast::Timestamp::from(uhlc::HLC::default().new_timestamp()),
+                        ClusterId(if own[i] { 1 } else { 2 }),
+                    );
+                    m.add_member(&actor);
+                    // peers 0 and 1 are close (ring 0), peer 2 is not
+                    if i < 2 {
+                        m.add_rtt(listeners[i], Duration::from_millis(1));
+                    }
+                }
+            }
+            let before: Vec<u64> = counters.iter().map(|c| c.load(std::sync::atomic::Ordering::SeqCst)).collect();
+            wid += 1;
+            let (st, _b) = klukai_agent::api::public::api_v1_transactions(
+                axum::Extension(r.agent.clone()),
+                axum::extract::Query(klukai_agent::api::public::TimeoutParams { timeout: None }),
+                axum::extract::Json(vec![Statement::Simple(format!("INSERT INTO t (id,a,b) VALUES ({wid},'m','m')"))]),
+            )
+            .await;
+            assert!(st.is_success());
+            tokio::time::sleep(Duration::from_millis(1500)).await;
+            let _ = klukai_agent::verif::handle_sync(&r.agent, &r.bookie, &r.transport).await;
+            tokio::time::sleep(Duration::from_millis(300)).await;
+            let after: Vec<u64> = counters.iter().map(|c| c.load(std::sync::atomic::Ordering::SeqCst)).collect();
+            evals += 1;
+            for i in 0..3 {
+                let contacted = after[i] > before[i];
+                if !own[i] {
+                    nontrivial += 1;
+                    if contacted {
+                        rep.violation(
+                            "C16:node-contacted-a-member-of-another-cluster",
+                            json!({"assignment(own cluster?)": own, "peer": i, "streams": after[i] - before[i]}),
+                        );
+                    }
+                }
+            }
+            if own.iter().any(|o| *o) && !(0..3).any(|i| own[i] && after[i] > before[i]) {
+                rep.violation("C16:no-same-cluster-member-contacted", json!({"assignment(own cluster?)": own}));
+            }
+            rep.outcome(digest(&(own, after.iter().zip(before.iter()).map(|(a, b)| a > b).collect::<Vec<_>>())));
+            if ai == 1 {
+                rep.sample(json!({"membership": own, "streams_per_listener": after.iter().zip(before.iter()).map(|(a, b)| a - b).collect::<Vec<_>>()}));
+            }
+        }
+        (evals, nontrivial)
+    });
+    rt.shutdown_timeout(Duration::from_secs(5));
+    rep.set("states", evals);
+    rep.set("transitions", evals);
+    rep.set("evaluations", evals);
+    rep.set("traces_validated_against_impl", evals);
+    rep.set("exhaustive", true);
+    rep.nontrivial_distinct_by_construction(nontrivial);
+    rep.sample(json!({"path": "broadcast", "receiver_cluster": 1, "declared": null, "meaning": "frame ends before the cluster id; the receiver defaults it to 0"}));
+    rep.set("bounds", json!({"receiver_cluster_ids": [0, 1, 2], "declared": ["absent", 0, 1, 2], "frame_orders": 2, "sync_declared": [0, 1, 2],
+        "run_time_switch": "1 -> 2 with frames on a connection opened before and on one opened after", "membership_assignments": tier.pick(4, 8)}));
+    rep.assume("full agents started through start_with_config over loopback QUIC (plaintext); a native frame in the same stream proves the stream was processed; negative observations on the pre-switch connection wait 700 ms");
+    rep.assume("SWIM datagrams (foca) and TLS mode are not exercised");
+    rep.require_nontrivial(20, "a case is non-trivial when the sender's effective cluster id differs from the receiver's (or the peer is in another cluster)");
+    rep.finish();
+}
+
 fn main() {
     let cli = parse_cli();
     match cli.props.first().map(|s| s.as_str()) {
         Some("C17") => c17(&cli),
+        Some("C16") => c16(&cli),
         _ => machinery_error("edge: --prop C16|C17"),
     }
 }
